@@ -364,7 +364,7 @@ class Env:
                 r = self._args_reach(call)
                 return fresh(r, r)
         t = self._args_reach(call)
-        if isinstance(f, ast.Attribute):
+        if isinstance(f, ast.Attribute) and d is None:
             recv = self.ev(f.value)
             t |= _down(recv.tags) | {x for x in recv.c1 | recv.deep
                                      if x[0] not in ('fresh', 'const')}
